@@ -2,6 +2,8 @@ package interpreter
 
 import (
 	"fmt"
+
+	. "github.com/glyphlang/glyph/pkg/ast"
 )
 
 // BindingSource identifies the origin of a variable binding in an Environment.
@@ -38,6 +40,21 @@ type Environment struct {
 	// (request, command, task, async block) this environment belongs to.
 	// Child scopes share their parent's counter; updated atomically.
 	depth *int64
+
+	// typeBindings holds the type arguments of the generic function call
+	// whose scope this is (type parameter name -> resolved type).
+	typeBindings map[string]Type
+}
+
+// enclosingTypeBindings returns the type bindings of the innermost generic
+// function call this scope is nested in, or nil.
+func (e *Environment) enclosingTypeBindings() map[string]Type {
+	for s := e; s != nil; s = s.parent {
+		if s.typeBindings != nil {
+			return s.typeBindings
+		}
+	}
+	return nil
 }
 
 // NewEnvironment creates a new environment
